@@ -380,7 +380,7 @@ class NetworkClient(KGLambda):
             finally:
                 self.writer = None
                 self.reader = None
-                self._cleanup_pending_responses(close_exception)
+                self._cleanup_pending_responses(close_exception or KlongIPCConnectionClosedException())
                 if on_close is not None:
                     try:
                         await on_close(self)
